@@ -185,6 +185,8 @@ def search(pid, ob, repo, scratch):
         ops = ['dom.preorder_after_edits']
     if pid == 'C11' and fn.startswith('info::attr_value_from_name'):
         ops = ['info.attr_norm']
+    if pid == 'C12' and fn.startswith('dom::XmlNode::'):
+        ops = ['dom.views_after_edits']
     if pid == 'C12' and fn.startswith('XmlItem::remove_from_parent'):
         ops = ['dom.views_after_edits', 'dom.tree_atomic']
     if fn.startswith('XmlItem::') and pid == 'C14':
@@ -211,7 +213,7 @@ def search(pid, ob, repo, scratch):
         # edit-history grids: prefer the scenario that exercises the function whose obligation failed
         prefer = {'HasChildren::append': 'append_new_after_child_with_descendants', 'HasChildren::insert_before': 'move_within_parent_before',
                   'XmlElement::last_child_or_self_id': 'append_new_after_child_with_descendants', 'XmlDocument::last_child_or_self_id': 'append_new_after_child_with_descendants',
-                  'XmlElement::append_attribute': 'set_attribute_on_element_with_children', 'Context::node': 'move_out_of_detached_parent', 'XmlItem::remove_from_parent': 'move_out_of_detached_parent',
+                  'XmlElement::append_attribute': 'set_attribute_on_element_with_children', 'Context::node': 'move_out_of_detached_parent', 'XmlItem::remove_from_parent': 'move_out_of_detached_parent', 'dom::XmlNode::': 'views_inside_detached_fragment',
                   'XmlItem::last_descendant_or_self_id': 'append_after_last_descendant_with_late_namespace_declaration', 'XmlItem::sub_items': 'append_after_last_descendant_with_late_namespace_declaration'}
         for k, v in prefer.items():
             if fn.startswith(k) and op.endswith('_after_edits'):
